@@ -373,6 +373,9 @@ class Gen:
         if self.chance(p_arg):
             if self.p.offset_continue and self.chance(0.25):
                 node["?offset"] = "continue"
+            elif self.chance(0.12):
+                # a variable that holds a keyword-like string ("continue", "reversed", ...: see DataGen.data)
+                node["?offset"] = {"k": "path", "segs": [{"s": "kw"}]}
             else:
                 node["?offset"] = self.primitive("int")
 
